@@ -53,6 +53,9 @@ module Bp = struct
               if empty_guard then
                 (* early return on the empty name: the base is not called; Mkdir reports the empty path *)
                 Printf.sprintf "tb= back=%s" (if op = "Mkdir" then "s" else "")
+              else if (op = "Remove" || op = "RemoveAll") && is_root Linux b cwd (List.hd args) then
+                (* the root directory is refused before anything reaches the base; the error carries the path as given *)
+                Printf.sprintf "tb= back=%s" (t (List.hd args))
               else if op = "Getwd" then
                 Printf.sprintf "tb= back=%s" (String.concat "," (List.map (fun r -> opt (cur_dir Linux b r)) raw))
               else
